@@ -12,7 +12,7 @@
      trslin  V seed n g[n] a[n] b[n] Delta                    -> ok x=..
      trsgeom V seed n xbase[n] c g[n] lower[n] upper[n] Delta -> ok x=..
      dwb     n d[n] xopt[n] sl[n] su[n] xbdi[n]               -> ok d=..      (elementwise: bit-exact)
-     trstep  hasH hasProj bad predKey                         -> ok solver=<name> zero=b   (decision logic of trust_region_step)
+     trstep  hasH hasProj bad normRaises predKey                       -> ok solver=<name> zero=b   (decision logic of trust_region_step)
 -/
 import DfolsVerif.Kernels.Trsbox
 import DfolsVerif.Kernels.TrStepRule
@@ -125,13 +125,13 @@ def handle (ts : List String) : String :=
       | some d => s!"ok d={showFV d}"
       | none => "bad-op"
     | none => "bad-op"
-  | ["trstep", hasH, hasProj, bad, pr] =>
-    match parseBool hasH, parseBool hasProj, parseBool bad, parseVal pr with
-    | some hasH, some hasProj, some bad, some pr =>
-      let sv := TrStep.pickSolver hasH hasProj bad
+  | ["trstep", hasH, hasProj, bad, nr, pr] =>
+    match parseBool hasH, parseBool hasProj, parseBool bad, parseBool nr, parseVal pr with
+    | some hasH, some hasProj, some bad, some nr, some pr =>
+      let sv := TrStep.pickSolver hasH hasProj bad nr
       let z := TrStep.returnedStep hasH pr false true     -- `true` marks "replaced by the zero step"
       s!"ok solver={sv.name} zero={showBool z}"
-    | _, _, _, _ => "bad-op"
+    | _, _, _, _, _ => "bad-op"
   | _ => "bad-op"
 
 end Dfols.TrsDrv
